@@ -69,7 +69,9 @@ contract("src/graph_based_model_construction.py:GraphBasedModelConstructor.corre
 
 record("GeneInfoRef", {"chr_id": "str", "isoform_strands": "dict[str,str]", "gene_id_map": "dict[str,str]",
                        "all_isoforms_exons": "dict[str,list[tuple[int,int]]]", "sources": "dict[str,str]",
-                       "other_features": "dict[str,list[tuple[int,int,str]]]"})
+                       "other_features": "dict[str,list[tuple[int,int,str]]]",
+                       # the gene records of the annotation (a transcript may lie on another strand than its gene record)
+                       "gene_strands": "dict[str,str]"})
 record("TranscriptModel", {"chr_id": "str", "strand": "str", "transcript_id": "str", "gene_id": "str", "exon_blocks": IVS,
                            "transcript_type": "enum:TranscriptModelType", "source": "str",
                            "other_features": "list[tuple[int,int,str]]", "additional_info": "dict[str,str]", "intron_path": "any"})
@@ -548,12 +550,19 @@ def _shared_gene_case(seed):
                 desc["calls"].append([("h%d" % call, hb, hb + 160)])
         pr.out_gff.flush()
         gene_lines = []
+        printed = set()
         for line in open(pr.model_fname):
             if line.startswith("#"):
                 continue
             f = line.rstrip("\n").split("\t")
             if f[2] == "gene" and 'gene_id "G"' in f[8]:
                 gene_lines.append((int(f[3]), int(f[4]), f[6]))
+            if f[2] == "transcript":
+                printed.add(f[8].split('transcript_id "')[1].split('"')[0])
+        # whichever island of the gene a model comes from, it is written (the reads table lists reads for it)
+        for t, (call, ex) in sorted(dumped.items()):
+            if t not in printed:
+                problems.append("transcript %s of gene G (dump %d) is not in the file" % (t, call))
         if len(gene_lines) != 1:
             problems.append("gene G has %d gene records %s" % (len(gene_lines), gene_lines))
         else:
